@@ -22,7 +22,7 @@ import (
 // script vocabulary (JSON = the replayable input)
 
 type Step struct {
-	O    string `json:"o"` // enq | deq | adv | close | gates | rel | race
+	O    string `json:"o"` // enq | enqhold | enqgo | deq | adv | close | gates | rel | race
 	K    int64  `json:"k,omitempty"`
 	Due  int64  `json:"due,omitempty"`
 	ID   int64  `json:"id,omitempty"`
@@ -50,9 +50,20 @@ type Obs struct {
 
 type qitem struct {
 	key, due, id int64
+	gate         chan struct{} // non-nil: the first Key() call parks until the gate is closed
+	entered      atomic.Bool
 }
 
-func (i *qitem) Key() int64               { return i.key }
+// Key is called by Enqueue under p.lock, after the unlocked stopped test: an item with a gate parks
+// its own Enqueue there ("in flight"). (Not inlined: the rest detection looks for this frame.)
+//
+//go:noinline
+func (i *qitem) Key() int64 {
+	if i.gate != nil && i.entered.CompareAndSwap(false, true) {
+		<-i.gate
+	}
+	return i.key
+}
 func (i *qitem) ScheduledTime() time.Time { return vbase.Add(time.Duration(i.due)) }
 
 type runner struct {
@@ -63,6 +74,8 @@ type runner struct {
 	taken      int          // execs already reported
 	closeCalls int          // Close calls made (each in its own goroutine)
 	closeDone  atomic.Int64 // ... of which returned
+	callsOut   atomic.Int64 // Enqueue/Dequeue calls that have not returned
+	held       *qitem       // the item of the Enqueue that is held in flight (at most one)
 }
 
 func newRunner(c0 int64) *runner {
@@ -89,12 +102,36 @@ func (r *runner) spawnClose() {
 	}()
 }
 
+// spawnCall runs an Enqueue/Dequeue call in its own goroutine (same recognisability): a call that
+// cannot get p.lock must not take the script's goroutine with it.
+func (r *runner) spawnCall(fn func()) {
+	r.callsOut.Add(1)
+	go func() {
+		fn()
+		r.callsOut.Add(-1)
+	}()
+}
+
 func (r *runner) call(st *Step) error {
 	switch st.O {
 	case "enq":
-		r.p.Enqueue(&qitem{key: st.K, due: st.Due, id: st.ID})
+		it := &qitem{key: st.K, due: st.Due, id: st.ID}
+		r.spawnCall(func() { r.p.Enqueue(it) })
+	case "enqhold":
+		if r.held != nil {
+			return errors.New("two held Enqueue calls")
+		}
+		it := &qitem{key: st.K, due: st.Due, id: st.ID, gate: make(chan struct{})}
+		r.held = it
+		r.spawnCall(func() { r.p.Enqueue(it) })
+	case "enqgo":
+		if r.held != nil {
+			close(r.held.gate)
+			r.held = nil
+		}
 	case "deq":
-		r.p.Dequeue(st.K)
+		k := st.K
+		r.spawnCall(func() { r.p.Dequeue(k) })
 	case "close":
 		r.closeCalls++
 		r.spawnClose()
@@ -109,7 +146,7 @@ var spinSink uint64
 // Do performs one client step and returns the observation at rest.
 func (r *runner) Do(st *Step) (Obs, error) {
 	switch st.O {
-	case "enq", "deq", "close":
+	case "enq", "deq", "close", "enqhold", "enqgo":
 		if err := r.call(st); err != nil {
 			return Obs{}, err
 		}
@@ -135,7 +172,7 @@ func (r *runner) Do(st *Step) (Obs, error) {
 	default:
 		return Obs{}, fmt.Errorf("bad step %q", st.O)
 	}
-	alive, err := r.quiesce(10 * time.Second)
+	sc, err := r.quiesce(10 * time.Second)
 	if err != nil {
 		return Obs{}, err
 	}
@@ -147,7 +184,9 @@ func (r *runner) Do(st *Step) (Obs, error) {
 	switch pk := r.clk.Parked(); {
 	case pk != 0:
 		o.Pos = pk
-	case alive:
+	case sc.loopLockWait:
+		o.Pos = 5
+	case sc.loopAlive:
 		o.Pos = 3
 		o.Dl = r.clk.LastDeadline()
 	default:
@@ -158,15 +197,19 @@ func (r *runner) Do(st *Step) (Obs, error) {
 }
 
 // Finish makes sure no goroutine of this runner survives (so that later stack scans see only
-// their own processor). Returns false when some Close call did not return within the deadline.
+// their own processor). Returns false when some call did not return within the deadline.
 func (r *runner) Finish() bool {
 	r.clk.SetGates(false, false, false)
+	if r.held != nil {
+		close(r.held.gate)
+		r.held = nil
+	}
 	if r.closeCalls == 0 {
 		r.closeCalls++
 		r.spawnClose()
 	}
 	dl := time.Now().Add(10 * time.Second)
-	for r.closeDone.Load() != int64(r.closeCalls) {
+	for r.closeDone.Load() != int64(r.closeCalls) || r.callsOut.Load() != 0 {
 		if time.Now().After(dl) {
 			return false
 		}
@@ -182,6 +225,12 @@ func (r *runner) Finish() bool {
 
 var errNoRest = errors.New("processor goroutines did not come to rest within the deadline")
 
+// errLockStuck: an Enqueue/Dequeue call waits for p.lock while every other goroutine of the
+// processor is parked and none of them is the harness's own held Enqueue: the lock is held by a
+// goroutine that is at rest (e.g. a loop that calls the injected clock with the lock held and is
+// parked there by a seam). No timeout is involved: nothing but the script could change that state.
+var errLockStuck = errors.New("an Enqueue/Dequeue call is blocked on p.lock while the goroutine holding it is parked (the lock is held across a call to the injected clock or the callback)")
+
 var goHeader = regexp.MustCompile(`^goroutine \d+ \[([^\],]+)`)
 
 // blockedBlock decides whether one goroutine of the processor is parked at one of the places
@@ -193,6 +242,7 @@ var goHeader = regexp.MustCompile(`^goroutine \d+ \[([^\],]+)`)
 //
 //	select        in processLoop            the loop's second select
 //	chan receive  in (*vclock).pass         held at a seam (Now, NewTimer, callback)
+//	chan receive  in (*qitem).Key           the harness's held Enqueue (in flight, has p.lock)
 //	chan send     in (*Processor).Close     Close waiting for the running token
 //	semacquire / sync.WaitGroup.Wait  inside sync.(*WaitGroup).Wait   Close's deferred wg.Wait
 func blockedBlock(state string, blk []byte) bool {
@@ -207,7 +257,7 @@ func blockedBlock(state string, blk []byte) bool {
 	case strings.HasPrefix(state, "select"):
 		return bytes.Contains(top, []byte(".processLoop("))
 	case strings.HasPrefix(state, "chan receive"):
-		return bytes.Contains(top, []byte("(*vclock).pass("))
+		return bytes.Contains(top, []byte("(*vclock).pass(")) || bytes.Contains(top, []byte("(*qitem).Key("))
 	case strings.HasPrefix(state, "chan send"):
 		return bytes.Contains(top, []byte(".Close("))
 	case strings.HasPrefix(state, "semacquire"), strings.HasPrefix(state, "sync.WaitGroup.Wait"):
@@ -218,7 +268,31 @@ func blockedBlock(state string, blk []byte) bool {
 
 var stackBuf = make([]byte, 1<<18)
 
-func scanStacks() (busy, loopAlive bool) {
+type scan struct {
+	busy           bool // some goroutine of the processor / of a client call is not parked
+	loopAlive      bool
+	loopLockWait   bool // the loop goroutine waits for p.lock
+	clientLockWait bool // an Enqueue/Dequeue call waits for p.lock
+	clientInKey    bool // the held Enqueue is parked in its item's Key() (it has p.lock)
+}
+
+// waitsForProcessorLock: state sync.Mutex.Lock and the frame that called Lock is a method of the
+// Processor (the only mutex there is p.lock); a wait for one of the harness's own mutexes is not.
+func waitsForProcessorLock(state string, blk []byte) bool {
+	if !strings.HasPrefix(state, "sync.Mutex.Lock") {
+		return false
+	}
+	lines := bytes.Split(blk, []byte("\n"))
+	for _, ln := range lines[1:] {
+		if len(ln) == 0 || ln[0] == '\t' || bytes.HasPrefix(ln, []byte("sync.")) {
+			continue
+		}
+		return bytes.Contains(ln, []byte("events/queue.(*Processor"))
+	}
+	return false
+}
+
+func scanStacks() (sc scan) {
 	var n int
 	for {
 		n = runtime.Stack(stackBuf, true)
@@ -228,29 +302,60 @@ func scanStacks() (busy, loopAlive bool) {
 		stackBuf = make([]byte, 2*len(stackBuf))
 	}
 	for _, blk := range bytes.Split(stackBuf[:n], []byte("\n\n")) {
-		if !bytes.Contains(blk, []byte("events/queue.(*Processor")) && !bytes.Contains(blk, []byte("(*runner).spawnClose")) {
+		if !bytes.Contains(blk, []byte("events/queue.(*Processor")) && !bytes.Contains(blk, []byte("(*runner).spawnClose")) &&
+			!bytes.Contains(blk, []byte("(*runner).spawnCall")) {
 			continue
 		}
-		m := goHeader.FindSubmatch(blk)
-		if m == nil || !blockedBlock(string(m[1]), blk) {
-			busy = true
+		isLoop := bytes.Contains(blk, []byte(".processLoop("))
+		if isLoop {
+			sc.loopAlive = true
 		}
-		if bytes.Contains(blk, []byte(".processLoop(")) {
-			loopAlive = true
+		m := goHeader.FindSubmatch(blk)
+		switch {
+		case m == nil:
+			sc.busy = true
+		case blockedBlock(string(m[1]), blk):
+			if bytes.Contains(blk, []byte("(*qitem).Key(")) && !isLoop {
+				sc.clientInKey = true
+			}
+		case waitsForProcessorLock(string(m[1]), blk):
+			if isLoop {
+				sc.loopLockWait = true
+			} else {
+				sc.clientLockWait = true
+			}
+		default:
+			sc.busy = true
 		}
 	}
-	return busy, loopAlive
+	return sc
 }
 
-func (r *runner) quiesce(limit time.Duration) (loopAlive bool, err error) {
+func (r *runner) quiesce(limit time.Duration) (scan, error) {
 	deadline := time.Now().Add(limit)
+	stuck := 0
 	for i := 0; ; i++ {
-		busy, alive := scanStacks()
-		if !busy {
-			return alive, nil
+		sc := scanStacks()
+		inFlight := int64(0)
+		if sc.clientInKey {
+			inFlight = 1
+		}
+		switch {
+		case sc.busy:
+			stuck = 0
+		case sc.clientLockWait || (sc.loopLockWait && !sc.clientInKey):
+			// nobody runs and somebody waits for a lock whose holder is parked; seen three times
+			// in a row (an Unlock readies its waiter at once, so this cannot be a hand-over)
+			if stuck++; stuck >= 3 {
+				return sc, errLockStuck
+			}
+		case r.callsOut.Load() != inFlight:
+			stuck = 0 // a call is finishing
+		default:
+			return sc, nil
 		}
 		if time.Now().After(deadline) {
-			return alive, errNoRest
+			return sc, errNoRest
 		}
 		if i < 8 {
 			runtime.Gosched()
